@@ -318,4 +318,30 @@ theorem feasible_cast (items : List (Nat × Rat)) (cap : Nat) (sel : List Nat) :
   · rintro ⟨a, b, c⟩
     exact ⟨a, by simpa [castItems] using b, by simpa [selW_cast, Rat.natCast_le_natCast] using c⟩
 
+/-! ### exact scaling -/
+
+theorem getD_zip_items (iw : List Nat) (vs : List Rat) (i : Nat) (h1 : i < iw.length) (h2 : i < vs.length) :
+    (iw.zip vs).getD i (0, 0) = (iw.getD i 0, vs.getD i 0) := by
+  have : (iw.zip vs)[i]? = some (iw[i], vs[i]) := by
+    rw [List.getElem?_eq_getElem (by simp; omega)]; simp
+  simp [List.getD_eq_getElem?_getD, this, h1, h2]
+
+theorem scaled_sums (items : List (Rat × Rat)) (scale : Rat) (iw : List Nat) (hlen : iw.length = items.length)
+    (hw : ∀ i, i < items.length → ((iw.getD i 0 : Nat) : Rat) = (items.getD i (0, 0)).1 * scale) :
+    ∀ sel : List Nat, (∀ i ∈ sel, i < items.length) →
+      ((selWN (iw.zip (items.map (·.2))) sel : Nat) : Rat) = selW items sel * scale ∧
+      selVN (iw.zip (items.map (·.2))) sel = selV items sel := by
+  intro sel
+  induction sel with
+  | nil => intro _; simp [selWN, selVN, selW, selV]
+  | cons i s ih =>
+    intro h
+    have hi := h i List.mem_cons_self
+    obtain ⟨a, b⟩ := ih (fun j hj => h j (List.mem_cons_of_mem _ hj))
+    have e := getD_zip_items iw (items.map (·.2)) i (by omega) (by simpa using hi)
+    have e2 : (items.map (·.2)).getD i 0 = (items.getD i (0, 0)).2 := by
+      simp [List.getD_eq_getElem?_getD, hi]
+    rw [selWN_cons, selVN_cons, selW_cons, selV_cons, e, Rat.natCast_add, a, b, hw i hi, e2]
+    exact ⟨by grind, rfl⟩
+
 end Solvor.Pack
